@@ -11,6 +11,9 @@ theorem bind_ok {ε α β : Type} {x : Except ε α} {f : α → Except ε β} {
 theorem pure_ok {ε α : Type} {a r : α} (h : (pure a : Except ε α) = .ok r) : a = r := by
   simp [pure, Except.pure] at h; exact h
 
+theorem throw_ne_ok {α : Type} {e : Status} {r : α} (h : (throw e : Except Status α) = .ok r) : False := by
+  simp [throw, throwThe, MonadExceptOf.throw] at h
+
 theorem subLoop_inv {o : FOps} (hl : Lawful o) (f : Fn) (ubErr : Rat) (i : Int) (ub : Rat) (hub : Fx o ub)
     (stepFuel : Nat) : ∀ (fuel : Nat) (x0 f0 : Rat) (pl r : PL), Inv o pl →
       subLoop o f ubErr i ub stepFuel fuel x0 f0 pl = .ok r → Inv o r := by
@@ -23,12 +26,12 @@ theorem subLoop_inv {o : FOps} (hl : Lawful o) (f : Fn) (ubErr : Rat) (i : Int) 
     obtain ⟨dx1, _, h⟩ := bind_ok h
     obtain ⟨dx2, _, h⟩ := bind_ok h
     obtain ⟨dx3, _, h⟩ := bind_ok h
-    have hx1 : Fx o (if fsub o ub (fadd o x0 dx3) < eps6 then ub else fadd o x0 dx3) := by
+    have hx1 : Fx o (if snapCond o ub (fadd o x0 dx3) then ub else fadd o x0 dx3) := by
       split
       · exact hub
       · exact fx_fadd hl _ _
     dsimp only at h
-    generalize (if fsub o ub (fadd o x0 dx3) < eps6 then ub else fadd o x0 dx3) = x1 at h hx1
+    generalize (if snapCond o ub (fadd o x0 dx3) then ub else fadd o x0 dx3) = x1 at h hx1
     obtain ⟨f1, _, h⟩ := bind_ok h
     have hinv' := addPoint_inv hl hinv hx1 f1
     split at h
@@ -80,8 +83,10 @@ theorem considerIntegrality_inv {o : FOps} (hl : Lawful o) (f : Fn) (isInt usePe
     split at h
     · simp [bind, Except.bind] at h
     · split at h
-      · exact intPoints_inv hl f _ _ _ _ _ (inv_nil o) h
-      · have := pure_ok h; subst this; exact hinv
+      · exact (throw_ne_ok h).elim
+      · split at h
+        · exact intPoints_inv hl f _ _ _ _ _ (inv_nil o) h
+        · have := pure_ok h; subst this; exact hinv
   · have := pure_ok h; subst this; exact hinv
 
 /-! membership in the set model of `std::set<float>` -/
@@ -145,9 +150,6 @@ theorem bpsNonPeriodic_fx {o : FOps} (hl : Lawful o) (f : Fn) (lbx ubx : Rat) :
 end MpVerif.C13
 
 namespace MpVerif.C13
-
-theorem throw_ne_ok {α : Type} {e : Status} {r : α} (h : (throw e : Except Status α) = .ok r) : False := by
-  simp [throw, throwThe, MonadExceptOf.throw] at h
 
 theorem mainLoop_inv {o : FOps} (hl : Lawful o) (f : Fn) (p : Params) (fuel : Nat) (d : Dom) (res1 : Res)
     (bps : List Rat) (hb : ∀ b ∈ bps, Fx o b) (r : Res) (h : mainLoop o f p fuel d res1 bps = .ok r) :
